@@ -12,7 +12,7 @@
 //!      | after <obj> <gate> <fut|->
 //!      | fsync <obj> <gate|-> <fut>       future_sync, returned future kept
 //!      | suspend <obj> <fut>
-//!      | await <fut> | syncf <fut> | dropf <fut> | resume <fut>
+//!      | await <fut> | pollonce <fut> | syncf <fut> | dropf <fut> | resume <fut>
 //!      | open <gate> | dropobj <obj> | setmax <n> | despawn | yield
 
 use std::fmt::Write;
@@ -27,6 +27,7 @@ pub enum Op {
     FSync(usize, Option<usize>, usize),
     Suspend(usize, usize),
     Await(usize),
+    PollOnce(usize),
     SyncF(usize),
     DropF(usize),
     Resume(usize),
@@ -60,6 +61,7 @@ impl Op {
             Op::FSync(o, g, f) => write!(out, "fsync {} {} {} ", o, opt(g), f).unwrap(),
             Op::Suspend(o, f) => write!(out, "suspend {} {} ", o, f).unwrap(),
             Op::Await(f) => write!(out, "await {} ", f).unwrap(),
+            Op::PollOnce(f) => write!(out, "pollonce {} ", f).unwrap(),
             Op::SyncF(f) => write!(out, "syncf {} ", f).unwrap(),
             Op::DropF(f) => write!(out, "dropf {} ", f).unwrap(),
             Op::Resume(f) => write!(out, "resume {} ", f).unwrap(),
@@ -74,7 +76,7 @@ impl Op {
     pub fn kind(&self) -> &'static str {
         match self {
             Op::Desync(..) => "desync", Op::Sync(..) => "sync", Op::TrySync(..) => "trysync", Op::FDesync(..) => "fdesync",
-            Op::After(..) => "after", Op::FSync(..) => "fsync", Op::Suspend(..) => "suspend", Op::Await(..) => "await",
+            Op::After(..) => "after", Op::FSync(..) => "fsync", Op::Suspend(..) => "suspend", Op::Await(..) => "await", Op::PollOnce(..) => "pollonce",
             Op::SyncF(..) => "syncf", Op::DropF(..) => "dropf", Op::Resume(..) => "resume", Op::Open(..) => "open",
             Op::DropObj(..) => "dropobj", Op::SetMax(..) => "setmax", Op::Despawn => "despawn", Op::Yield => "yield",
         }
@@ -137,6 +139,7 @@ impl<'a> Parser<'a> {
             "fsync" => { let o = self.num()?; let g = self.optnum()?; let f = self.num()?; Op::FSync(o, g, f) }
             "suspend" => { let o = self.num()?; let f = self.num()?; Op::Suspend(o, f) }
             "await" => Op::Await(self.num()?),
+            "pollonce" => Op::PollOnce(self.num()?),
             "syncf" => Op::SyncF(self.num()?),
             "dropf" => Op::DropF(self.num()?),
             "resume" => Op::Resume(self.num()?),
@@ -232,7 +235,8 @@ pub fn generate(rng: &mut Rng, cfg: &GenConfig) -> Program {
                 let f = futs; futs += 1;
                 ops.push(Op::FSync(o, g, f));
                 if rng.chance(1, 3) { ops.push(Op::Yield); }
-                if rng.chance(3, 4) { ops.push(Op::Await(f)); } else { ops.push(Op::DropF(f)); }
+                if rng.chance(1, 3) { ops.push(Op::PollOnce(f)); if rng.chance(1, 2) { ops.push(Op::Yield); } }
+                if rng.chance(2, 3) { ops.push(Op::Await(f)); } else { ops.push(Op::DropF(f)); }
             } else if pick < 82 && cfg.suspend && kind(o) == 'q' {
                 let f = futs; futs += 1;
                 ops.push(Op::Suspend(o, f));
@@ -244,6 +248,7 @@ pub fn generate(rng: &mut Rng, cfg: &GenConfig) -> Program {
                 let i = rng.below(live_futs.len());
                 let (f, kind) = live_futs.remove(i);
                 let c = rng.below(10);
+                if rng.chance(1, 4) { ops.push(Op::PollOnce(f)); if rng.chance(1, 2) { ops.push(Op::Yield); } }
                 if c < 6 { ops.push(Op::Await(f)); }
                 else if c < 8 && kind == "sf" { ops.push(Op::SyncF(f)); }
                 else { ops.push(Op::DropF(f)); }
@@ -263,7 +268,7 @@ pub fn generate(rng: &mut Rng, cfg: &GenConfig) -> Program {
         // never between a suspend and its resume, nor between a future_sync and its await/drop
         let safe = !threads[t].iter().any(|op| matches!(op, Op::Suspend(..)));
         let mut at = at;
-        while at > 0 && at < threads[t].len() && matches!(threads[t][at], Op::Await(_) | Op::DropF(_) | Op::Yield) && threads[t][..at].iter().rev().take_while(|op| matches!(op, Op::Yield | Op::FSync(..))).any(|op| matches!(op, Op::FSync(..))) { at -= 1; }
+        while at > 0 && at < threads[t].len() && matches!(threads[t][at], Op::Await(_) | Op::DropF(_) | Op::Yield | Op::PollOnce(_)) && threads[t][..at].iter().rev().take_while(|op| matches!(op, Op::Yield | Op::FSync(..) | Op::PollOnce(_))).any(|op| matches!(op, Op::FSync(..))) { at -= 1; }
         if at > 0 && at < threads[t].len() && matches!(threads[t][at - 1], Op::FSync(..)) { at -= 1; }
         if safe { threads[t].insert(at, Op::DropObj(o)); }
     }
